@@ -32,6 +32,7 @@ type StartSpec struct {
 type OutSpec struct {
 	Data string `json:"data"`
 	Err  string `json:"err"` /* "", eof, ueof, closedpipe, other */
+	Pad  int    `json:"pad"` /* If > len(Data): pad with a position-dependent pattern to this size. */
 }
 
 // Profile bounds one exploration.
@@ -52,6 +53,8 @@ type Profile struct {
 	MaxDepth    int         `json:"max_depth"`
 	/* LinePayload, if set, is appended to every entered line. */
 	LinePayload string `json:"line_payload"`
+	/* JSONLog also sends every record through a real slog JSON handler. */
+	JSONLog bool `json:"json_log"`
 }
 
 func (p *Profile) has(o string) bool {
@@ -81,8 +84,10 @@ func (e Event) String() string {
 		return fmt.Sprintf("start(spec%d)", e.Spec)
 	case "admit", "release":
 		return fmt.Sprintf("%s(a%d,%s)", e.Op, e.A, e.Dir)
-	case "out":
-		return fmt.Sprintf("out(a%d,o%d)", e.A, e.Arg)
+	case "out", "outcancel":
+		return fmt.Sprintf("%s(a%d,o%d)", e.Op, e.A, e.Arg)
+	case "linecancel":
+		return fmt.Sprintf("linecancel(a%d)", e.A)
 	case "wfail":
 		return fmt.Sprintf("wfail(a%d,%s)", e.A, [...]string{"write", "flush"}[e.Arg])
 	case "cancel":
@@ -135,6 +140,7 @@ type attempt struct {
 	r         *scriptReader
 	halves    map[string]*half
 	outsUsed  int
+	outSeq    []int /* Which read results were supplied, in order. */
 	/* Oracle memory. */
 	linesGot []string /* Complete entries (write + flush) received. */
 	c11n     int      /* Entries already matched with log records. */
@@ -217,7 +223,7 @@ func New(p *Profile) *World {
 		P:     p,
 		ich:   make(chan string, 64),
 		och:   make(chan opshell.CLine, p.OchCap),
-		lh:    newLogHandler(),
+		lh:    newLogHandler(p.JSONLog),
 		evL:   make(chan iobroker.Event, 1024),
 		doRet: make(chan error, 1),
 		usage: make([]int, len(p.Starts)),
@@ -335,18 +341,34 @@ func (w *World) Enabled() []Event {
 	}
 	if w.linesEntered < p.MaxLines && !w.ichClosed {
 		evs = append(evs, Event{Op: "line"})
+		/* "Simultaneous" pair: the line is handed to the waiting input
+		proxy and, before that goroutine gets to run, its context is
+		cancelled (client gone while the line is in the proxy's hands).
+		Deterministic: the proxy's select was already won by the line. */
+		if p.Cancel && 0 == len(w.ich) {
+			for _, a := range w.attempts {
+				if h, ok := a.halves["input"]; ok && hAttached == h.st && !a.cancelled && !a.returned {
+					evs = append(evs, Event{Op: "linecancel", A: a.id})
+				}
+			}
+		}
 	}
 	for _, a := range w.attempts {
 		if nil != a.r && a.r.isParked() && a.outsUsed < p.MaxOuts {
 			for i := range p.Outs {
 				evs = append(evs, Event{Op: "out", A: a.id, Arg: i})
 			}
+			/* "Simultaneous" pair: the parked Read returns and, before
+			the reading goroutine runs, the context is cancelled. */
+			if p.Cancel && !a.cancelled && !a.returned && hAttached == a.halves["output"].st {
+				evs = append(evs, Event{Op: "outcancel", A: a.id, Arg: 0})
+			}
 		}
 		if p.WFail && nil != a.w && !a.returned {
 			if h := a.halves["input"]; hAttached == h.st || hParkAdmit == h.st {
 				if !a.w.failW && !a.w.failF {
 					evs = append(evs, Event{Op: "wfail", A: a.id, Arg: 0})
-					if 0 != a.w.kind {
+					if a.w.kind >= 2 { /* http.Flusher.Flush cannot report a failure. */
 						evs = append(evs, Event{Op: "wfail", A: a.id, Arg: 1})
 					}
 				}
@@ -396,16 +418,37 @@ func (w *World) Do(e Event) *Step {
 		w.linesEntered++
 		w.entered = append(w.entered, l)
 		w.ich <- l
-	case "out":
+	case "linecancel":
+		a := w.attempts[e.A]
+		l := fmt.Sprintf("L%d%s", w.linesEntered, w.P.LinePayload)
+		w.linesEntered++
+		w.entered = append(w.entered, l)
+		a.cancelled = true
+		w.ich <- l
+		a.cancel()
+	case "out", "outcancel":
 		a := w.attempts[e.A]
 		a.outsUsed++
+		a.outSeq = append(a.outSeq, e.Arg)
 		o := w.P.Outs[e.Arg]
 		data := strings.ReplaceAll(o.Data, "#", fmt.Sprintf("%d.%d", a.id, a.outsUsed))
+		if o.Pad > len(data) {
+			pad := make([]byte, o.Pad-len(data))
+			for i := range pad {
+				pad[i] = "0123456789abcdefghijklmnopqrstuvwxyzABCDEFGHIJKLMNOPQRSTUVWXYZ+/"[(i*7+i/64+a.outsUsed*13)%64]
+			}
+			data += string(pad)
+		}
 		w.c03For(a).supplied = append(w.c03For(a).supplied, data...)
 		if "" != o.Err {
 			w.c03For(a).ended = o.Err
 		}
 		a.r.supply([]byte(data), outErr(o.Err))
+		if "outcancel" == e.Op {
+			a.cancelled = true
+			a.cancel()
+			w.c03For(a).disturbed = true
+		}
 	case "wfail":
 		a := w.attempts[e.A]
 		if 0 == e.Arg {
@@ -610,6 +653,10 @@ func (w *World) Canon() string {
 		}
 		if nil != a.r {
 			fmt.Fprintf(&t, ",R%s,%d", a.r.state(), a.outsUsed)
+			if !w.P.Roomy() {
+				/* Chunks may be in flight: which ones matters. */
+				fmt.Fprintf(&t, "%v", a.outSeq)
+			}
 		}
 		if nil != a.w {
 			fmt.Fprintf(&t, ",W%v%v", a.w.failW, a.w.failF)
